@@ -68,6 +68,8 @@ def excluded(family, n, cfg, switches):
         if family == "nest_def" and big > 40:
             return "ast-unparse-long-chain"
     big = n if isinstance(n, int) else max(n)
+    if "deep-decorator-stack" in switches and family == "decorators" and big > 100:
+        return "deep-decorator-stack"
     if "chain-call-many-statements" in switches and w == "chain_call" and big > 1000 and (
             family in size.STATEMENT_COUNT or family in size.COMPOSED):
         return "chain-call-many-statements"
